@@ -15,7 +15,7 @@ package acl
 //@   exists i int :: 0 <= i && i < len(rr) && ruleAllows(rr, i, action, secret) }
 
 //@ func (Secret).Match(pat, val) (res)
-//@   ensures [C07 match.glob] res == globMatch(str(pat), val)
+//@   ensures [C01,C07 match.glob] res == globMatch(str(pat), val)
 //@   loop 0
 //@     invariant [quoted] forall j int :: 0 <= j && j < iter ==> parts[j] == quote(seqNth(split(str(pat), "*"), j))
 //@     invariant [unquoted] forall j int :: iter <= j && j < len(parts) ==> parts[j] == seqNth(split(str(pat), "*"), j)
@@ -28,7 +28,7 @@ package acl
 
 //@ func (*Rule).Allow(r, action, secret) (res)
 //@   requires r != nil
-//@   ensures [C07 rule.iff] res == ruleAllowsP(r, action, secret)
+//@   ensures [C01,C07 rule.iff] res == ruleAllowsP(r, action, secret)
 
 //@ func (*Rule).Allow$1(acts) (res)
 //@   inline
